@@ -208,7 +208,15 @@ class Tracer(object):
             if decl in BOUNDARY:
                 args = tuple(self._sub(a, env, site) for a in self.eng.call_args(body, bb))
                 res = self._sub(T('call', decl, self.eng.call_args(body, bb), ((body.key, bb),)), env, site)
-                out.append(Event(BOUNDARY[decl], args, site + ((body.key, bb),), here_loops, must and is_must(), body, bb, res))
+                kind = BOUNDARY[decl]
+                alts = list(args[2].args) if kind in ('append', 'append_u64') and len(args) > 2 and args[2].tag == 'phi' else None
+                if alts and len(alts) == 2 and any(strip(x).tag == 'const' for x in alts):
+                    # `append(label, opt.unwrap_or(c))` is `match opt { Some(v) => append(label, v), None => append(label, c) }`:
+                    # one alternative event per value
+                    for x in alts:
+                        out.append(Event(kind, args[:2] + (x,) + args[3:], site + ((body.key, bb),), here_loops, False, body, bb, res, conds=('alt',)))
+                else:
+                    out.append(Event(kind, args, site + ((body.key, bb),), here_loops, must and is_must(), body, bb, res))
             elif name in self.facts.fn and self.has_events(self.facts.fn[name]):
                 callee = self.facts.fn[name]
                 cenv = {}
